@@ -6,7 +6,29 @@ import msmart.lan as lan
 
 import simdev
 import vloop
-from common import hx
+from common import hx, lan_of
+
+
+def _drain(p):
+    """everything queued so far, as raw packets: through the receive queue if it is where it used to be, otherwise
+    through the base protocol class's own non-blocking read()"""
+    q = getattr(p, "_queue", None)
+    got = []
+    if isinstance(q, asyncio.Queue):
+        while True:
+            try:
+                got.append(q.get_nowait())
+            except asyncio.QueueEmpty:
+                return got
+
+    async def rd():
+        while True:
+            try:
+                got.append(await lan._LanProtocol.read(p, timeout=0))
+            except asyncio.QueueEmpty:
+                return
+    asyncio.run(rd())
+    return got
 
 
 def impl_feed(segs):
@@ -14,14 +36,9 @@ def impl_feed(segs):
     out = []
     for s in segs:
         p.data_received(bytes(s))
-        got = []
-        while True:
-            try:
-                got.append(p._queue.get_nowait())
-            except asyncio.QueueEmpty:
-                break
-        out.append(got)
-    return out, bytes(p._buffer)
+        out.append(_drain(p))
+    buf = getattr(p, "_buffer", None)
+    return out, (bytes(buf) if buf is not None else None)
 
 
 def mk_packet(rng, n, seeded=False):
@@ -53,7 +70,11 @@ def check(ctx, stream, g, packets, cuts):
     if ctx.driver:
         m = ctx.driver.ask("reasm segs=" + ",".join(hx(s) for s in segs if len(s)))
         segs_ne = [i for i, s in enumerate(segs) if len(s)]
-        impl_s = "q=" + "|".join(";".join(hx(p) for p in out[i]) for i in segs_ne) + " buf=" + hx(buf)
+        impl_s = "q=" + "|".join(";".join(hx(p) for p in out[i]) for i in segs_ne) + " buf=" + (hx(buf) if buf is not None else "?")
+        if buf is None:
+            # the left-over buffer is not observable under its usual name: compare the queued packets only
+            m = m.split(" buf=")[0] + " buf=?"
+            ctx.count("buffer-not-observable")
         if m != impl_s:
             ctx.disagree(stream, inp, impl_s, m)
     flat = [p for o in out for p in o]
@@ -109,7 +130,7 @@ def through_lan(ctx, rng, n):
             dev_sim.script = [("segments", cuts, 0.1, GAP)]
             t0 = loop.now()
             from msmart.device.AC.command import GetStateCommand
-            resp = await ac._lan.send(GetStateCommand().tobytes())
+            resp = await lan_of(ac).send(GetStateCommand().tobytes())
             result.update(t=loop.now() - t0, n=len(resp), cuts=cuts, total=len(probe), resp=resp)
         try:
             vloop.run(scenario)
@@ -177,7 +198,7 @@ def replay(ctx, case):
         pos = [0] + inp["cuts"] + [len(data)]
         segs = [data[a:b] for a, b in zip(pos, pos[1:])]
         out, buf = impl_feed(segs)
-        print("impl :", [[hx(p) for p in o] for o in out], hx(buf))
+        print("impl :", [[hx(p) for p in o] for o in out], hx(buf) if buf is not None else "?")
         if ctx.driver:
             print("model:", ctx.driver.ask("reasm segs=" + ",".join(hx(s) for s in segs if len(s))))
     else:
